@@ -169,6 +169,15 @@ func genOffenderItem(t *sim.Tape, g *wl.Gen, ns string, i int, o *Outcome) ([]by
 		o.stat("complexity_attacks", 1)
 		return append(resp.Cmd("SET", key, "v"), resp.Cmd(a...)...), fmt.Sprintf("SET %s..; %q", key[:len(ns)+4], a)
 	case k < 6:
+		if t.Draw(16, "othercmd") == 15 {
+			// a command of the Redis command set that this framework does not implement (today: an error reply),
+			// with sizes, offsets and counts from small to far beyond memory
+			name := []string{"SETRANGE", "SETBIT", "GETEX", "LPOS", "LINSERT", "LSET", "LTRIM", "BITCOUNT", "PSETEX", "COPY", "OBJECT", "MEMORY", "DEBUG", "HINCRBY", "SRANDMEMBER", "SPOP", "ZPOPMIN", "XADD"}[t.Draw(18, "othername")]
+			num := []string{"0", "1", "-1", "4096", "2147483647", "4294967296", "68719476736", "1099511627776", "140737488355328", "4611686018427387904", "9223372036854775807", "-9223372036854775808"}[t.Draw(12, "othernum")]
+			a := [][]string{{name, ns + "k", num, "x"}, {name, ns + "k", num}, {name, ns + "k", "x", num}, {name, ns + "k", num, num}}[t.Draw(4, "othershape")]
+			o.stat("commands_outside_the_implemented_set", 1)
+			return resp.Cmd(a...), fmt.Sprintf("%q", a)
+		}
 		a := genBoundaryCmd(t, ns)
 		return resp.Cmd(a...), fmt.Sprintf("%q", a)
 	case k == 6:
@@ -448,7 +457,7 @@ func init() {
 	register(&Check{
 		ID: "C07", Bubble: true, Run: runC07,
 		Runs:   map[string]int{"quick": 20000, "thorough": 600000},
-		Rule:   "a case is one run of the full server (Start, accept loop, connection goroutines) with 1..3 offender connections (in a quarter of the runs the application supplies a TLS configuration that does not require client certificates and offenders may use the TLS port with or without one; boundary-argument commands on a small key pool, ill-formed and unknown commands, odd/null/nested arrays, malformed frames, many-wildcard patterns against a long almost-matching key; ended by idle/half-close/close/reset at a drawn byte), one lock-step witness with exact expected replies and one late-comer, under a seeded interleaving of all deliveries and server goroutines; in half of the runs with inserted scheduling points an application goroutine registers an executor while clients are served; handler = bundled example store, reference store, or a non-panicking but misbehaving store (nil results, errors, oddly typed replies for the offenders' keys); distinct = distinct event-log hashes; every run has an offender, so all are non-trivial",
+		Rule:   "a case is one run of the full server (Start, accept loop, connection goroutines) with 1..3 offender connections (in a quarter of the runs the application supplies a TLS configuration that does not require client certificates and offenders may use the TLS port with or without one; boundary-argument commands on a small key pool, commands of the Redis command set outside the implemented ones with sizes up to far beyond memory, ill-formed and unknown commands, odd/null/nested arrays, malformed frames, many-wildcard patterns against a long almost-matching key; ended by idle/half-close/close/reset at a drawn byte), one lock-step witness with exact expected replies and one late-comer, under a seeded interleaving of all deliveries and server goroutines; in half of the runs with inserted scheduling points an application goroutine registers an executor while clients are served; handler = bundled example store, reference store, or a non-panicking but misbehaving store (nil results, errors, oddly typed replies for the offenders' keys); distinct = distinct event-log hashes; every run has an offender, so all are non-trivial",
 		Real:   []string{"redis.Server Start/accept loop/connection goroutines/dispatch/executors/parser", "examples/go-redisd/server store (half of the runs)"},
 		Stub:   []string{"network: simulated listener and connections", "handler (other half): reference store", "process isolation: one worker process per shard, a worker death is attributed to its run and replayed alone"},
 		Assume: []string{"the witness uses its own keys and database so that its expected replies do not depend on the offenders"},
